@@ -40,9 +40,9 @@ func checkC05(c *Ctx) {
 	// necessary condition for the (otherwise undecided) Control Change value byte: positions within the reported range normalise into [-1,1]
 	ruleNormalisation(c, dv, "R5.6")
 	c.MinCount("R5.1", 3)
-	c.MinCount("R5.2", 20)
-	c.MinCount("R5.3", 20)
-	c.MinCount("R5.4", 30)
+	c.MinCount("R5.2", 12)
+	c.MinCount("R5.3", 12)
+	c.MinCount("R5.4", 20)
 	c.DecidedClause("every value a device sends is the direct result of one of the three constructors, each of which builds a 3-byte message `kind|channel, b1, b2` with kind in {0x80,0x90,0xB0,0xE0}")
 	c.DecidedClause("at all constructor call sites the channel nibble is <= 15 (mod 16, tracker container invariant, or Device.channel field invariant incl. its initialisation from the parser-checked default channel), notes are within 0..127 (range guard, tracker invariant, counted loop), velocities, controller numbers and pitch-bend bytes are within 0..127")
 	c.UndecidedClause("the VALUE byte of the analog Control Change messages, byte(int(127*adjustedValue)): its bound needs relational floating-point facts (adjustedValue in [0,1]) that interval reasoning without a solver cannot establish; deadzones are not range-checked by the parser")
@@ -410,7 +410,7 @@ func ruleSendSites(c *Ctx, dv *dev, pf *parserFacts, shapes map[*ssa.Function]*c
 					}
 					hi = 119
 				}
-				if kind == midiCC && i == 1 && isFloatDerived(args[pi]) {
+				if kind == midiCC && i == 1 && isFloatDerived(c.P, args[pi]) {
 					c.Trivial("R5.4", ckey+"/"+names[i]+"(not-decided)", cpos, "value byte byte(int(127*x)) is derived from floating-point shaping: NOT decided by this check (see explanation)")
 					continue
 				}
@@ -443,7 +443,7 @@ func ruleSendSites(c *Ctx, dv *dev, pf *parserFacts, shapes map[*ssa.Function]*c
 	}
 }
 
-func isFloatDerived(v ssa.Value) bool {
+func isFloatDerived(p *Program, v ssa.Value) bool {
 	seen := map[ssa.Value]bool{}
 	var rec func(v ssa.Value) bool
 	rec = func(v ssa.Value) bool {
@@ -465,6 +465,19 @@ func isFloatDerived(v ssa.Value) bool {
 					return true
 				}
 			}
+		case *ssa.Parameter:
+			// a helper's parameter: float-derived if every static call site passes a float-derived value
+			sites, ok := staticCallSites(p, x.Parent())
+			idx := paramIndex(x)
+			if !ok || idx < 0 {
+				return false
+			}
+			for _, ci := range sites {
+				if idx >= len(ci.Common().Args) || !rec(ci.Common().Args[idx]) {
+					return false
+				}
+			}
+			return true
 		case *ssa.Call:
 			// a value-only helper (e.g. an extracted scaling function): float-derived if every result is
 			callee := x.Call.StaticCallee()
@@ -487,8 +500,9 @@ func isFloatDerived(v ssa.Value) bool {
 	return rec(v)
 }
 
-// ruleEstablishInvariants: the invariants assumed by the send-site proofs.
-func ruleEstablishInvariants(c *Ctx, dv *dev, pf *parserFacts) {
+// ruleChannelInvariant: Device.channel stays within 0..15 - every store site preserves it and the parser establishes the
+// initial value (used by C05 for the status nibble and by C13 for the panic burst, which puts d.channel on the wire unmasked).
+func ruleChannelInvariant(c *Ctx, dv *dev, pf *parserFacts, rule string) {
 	// (a) Device.channel in [0,15]: every store site preserves it
 	for _, s := range storesToField(c.P, dv.fields["channel"]) {
 		st := s.Instr.(*ssa.Store)
@@ -498,19 +512,19 @@ func ruleEstablishInvariants(c *Ctx, dv *dev, pf *parserFacts) {
 			// uint8(Defaults.Channel - 1) needs Defaults.Channel in [1,16]
 			src, minus, ok := defaultsSource(st.Val)
 			if !ok || src != "Channel" || minus != 1 {
-				c.Bad("R5.3", key, pos, "initial channel is not uint8(Defaults.Channel - 1)")
+				c.Bad(rule, key, pos, "initial channel is not uint8(Defaults.Channel - 1)")
 				continue
 			}
 			res := pf.checkBounds("Defaults", "Channel")
 			if len(res) == 0 {
-				c.Undec("R5.3", key, pos, "no Defaults literal found in ParseData")
+				c.Undec(rule, key, pos, "no Defaults literal found in ParseData")
 				continue
 			}
 			for _, r := range res {
 				if r.OK {
-					c.OK("R5.3", key, pos, "Defaults.Channel in [1,16] established by the parser: "+r.Why)
+					c.OK(rule, key, pos, "Defaults.Channel in [1,16] established by the parser: "+r.Why)
 				} else {
-					c.Bad("R5.3", key, r.Pos, "the initial channel uint8(Defaults.Channel-1) is in 0..15 only if the parser guarantees defaults.channel in 1..16, but: "+r.Why+" — e.g. `channel = 0` is accepted, Device.channel becomes 255 and Panic() emits status byte 0xB0|0xFF")
+					c.Bad(rule, key, r.Pos, "the initial channel uint8(Defaults.Channel-1) is in 0..15 only if the parser guarantees defaults.channel in 1..16, but: "+r.Why+" — e.g. `channel = 0` is accepted, Device.channel becomes 255 and Panic() emits status byte 0xB0|0xFF")
 				}
 			}
 			continue
@@ -535,11 +549,16 @@ func ruleEstablishInvariants(c *Ctx, dv *dev, pf *parserFacts) {
 			}
 		}
 		if okStore {
-			c.OK("R5.3", key, pos, why)
+			c.OK(rule, key, pos, why)
 		} else {
-			c.Bad("R5.3", key, pos, "store does not preserve Device.channel in [0,15]: "+t.String()+" with "+why)
+			c.Bad(rule, key, pos, "store does not preserve Device.channel in [0,15]: "+t.String()+" with "+why)
 		}
 	}
+}
+
+// ruleEstablishInvariants: the invariants assumed by the send-site proofs.
+func ruleEstablishInvariants(c *Ctx, dv *dev, pf *parserFacts) {
+	ruleChannelInvariant(c, dv, pf, "R5.3")
 	// (b) Device.velocity in [1,127]
 	for _, s := range storesToField(c.P, dv.fields["velocity"]) {
 		st := s.Instr.(*ssa.Store)
